@@ -162,13 +162,15 @@ package responseassembler
 //@   callsite PeerMessageHandler.AllocateAndBuildMessage: assert $blkSize == SeqSum(operations, len(operations), opSizeOf) && $p == rs.p
 //@   loop 1 invariant size == SeqSum(operations, idx1, opSizeOf) && size >= 0
 //@   use seqsum_step(operations, idx1, opSizeOf)
-//@ -- ... and the build callback adds exactly that to the builder it is given
+//@ -- ... and the build callback adds exactly that to the builder it is given - or nothing at all, when the response stream
+//@ -- was closed after the reservation (the message queue hands back what a callback did not add, buildMessage)
 //@ func responseStream.execute.func1
 //@   lenient
 //@   safety off
 //@   requires builder != nil && builder.Builder != nil
 //@   modifies builder.Builder.blkSize, alloc, allmaps(builder.responseStreams), allmaps(builder.subscribers)
 //@   ensures builder.Builder.blkSize == old(builder.Builder.blkSize) + SeqSum(operations, len(operations), opSizeOf)
+//@           || builder.Builder.blkSize == old(builder.Builder.blkSize)
 //@   loop 1 invariant builder.Builder.blkSize == old(builder.Builder.blkSize) + SeqSum(operations, idx1, opSizeOf)
 //@   use seqsum_step(operations, idx1, opSizeOf)
 
